@@ -289,6 +289,20 @@ impl Prop for C09 {
                 5 => (rng.pick(&["requesting-user-name", "job-name", "document-format", "last-document", "requested-attributes", "limit", "which-jobs", "my-jobs", "compression", "document-name", "system-uri", "printer-id", "document-uri", "resource-id", "notify-subscription-id", "job-ids", "output-device-uuid", "document-number", "ipp-attribute-fidelity", "job-k-octets"]).to_string(), simple_value(rng)),
                 _ => (gen_ascii(rng, 14) + "k", simple_value(rng)),
             };
+            // 1 in 6 re-additions of a reserved name carries a value of ANOTHER kind than the constructors use (the
+            // position rule is stated by attribute name; a peer or caller may well type job-id as enum or a URI as text)
+            let value = if matches!(name.as_str(), "attributes-charset" | "attributes-natural-language" | "printer-uri" | "job-uri" | "job-id") && rng.chance(1, 6) {
+                match (name.as_str(), rng.below(3)) {
+                    ("job-id", 0) => MValue::Enum(gen_i32(rng)),
+                    ("job-id", 1) => MValue::RangeOfInteger { min: 1, max: 2 },
+                    ("job-id", _) => MValue::Array(vec![MValue::Integer(gen_i32(rng))]),
+                    (_, 0) => MValue::Keyword(gen_ascii(rng, 8)),
+                    (_, 1) => MValue::TextWithoutLanguage(gen_ascii(rng, 8)),
+                    _ => MValue::NameWithoutLanguage(gen_ascii(rng, 8)),
+                }
+            } else {
+                value
+            };
             adds.push((group, name, value));
         }
         let host = *rng.pick(&["localhost", "printer.example.com", "127.0.0.1", "[::1]"]);
@@ -338,6 +352,10 @@ impl Prop for C09 {
             rep.count(&format!("env.{}.{}", k, if v.is_some() { "set" } else { "unset" }), 1);
         }
         rep.count("further_adds", case.adds.len() as u64);
+        rep.count(
+            "reserved_name_readded_with_another_value_kind",
+            case.adds.iter().filter(|(_, n, v)| matches!(n.as_str(), "attributes-charset" | "attributes-natural-language" | "printer-uri" | "job-uri" | "job-id") && !matches!(v, MValue::Charset(_) | MValue::NaturalLanguage(_) | MValue::Uri(_) | MValue::Integer(_))).count() as u64,
+        );
         let mut h = Fnv::default();
         h.bytes(serde_json::to_string(&(&case.entry, &case.adds)).unwrap_or_default().as_bytes());
         let mut observed: Vec<Vec<String>> = Vec::new();
@@ -454,7 +472,7 @@ impl Prop for C09 {
     }
 
     fn rule(&self) -> String {
-        "Each run executes on a fresh OS thread whose HashMap keys derive from the run seed (getrandom interposed) and, in 1 run of 4, under a seeded locale environment (LANG / LC_ALL / LC_MESSAGES / LANGUAGE set to well-formed and odd values or removed), builds a seeded program — one of 12 entry points (10 operation builders, IppRequestResponse::new with/without URI, new_response) with seeded optional parameters, then 0-12 further attributes_mut().add() calls in seeded order incl. re-adding the reserved names and job-uri when no printer-uri exists, (1 program in 12 makes 13-40 of them), in 1 of 6 programs a non-operation group inserted at the front of the group list through groups_mut(), in 1 of 8 a second operation group pushed at the end through groups_mut(), and in 1 of 6 a to_bytes() call between the adds and that surgery — four times (four fresh map key sets), serialises each with to_bytes() and reads the attribute names of every group with the reference tokenizer (a target attribute that ended up in a later operation group still counts as present). Oracle = the statement: first delimiter 0x01; attributes-charset first; attributes-natural-language second; printer-uri third if present, else job-uri third if present; job-id fourth when printer-uri and job-id are both present. distinct_nontrivial = distinct (program, observed order per instance) hashes among runs whose operation group has >= 4 attributes."
+        "Each run executes on a fresh OS thread whose HashMap keys derive from the run seed (getrandom interposed) and, in 1 run of 4, under a seeded locale environment (LANG / LC_ALL / LC_MESSAGES / LANGUAGE set to well-formed and odd values or removed), builds a seeded program — one of 12 entry points (10 operation builders, IppRequestResponse::new with/without URI, new_response) with seeded optional parameters, then 0-12 further attributes_mut().add() calls in seeded order incl. re-adding the reserved names and job-uri when no printer-uri exists (1 such re-addition in 6 with a value of another kind than the constructors use: job-id as enum / range / one-element set, the others as keyword / text / name), (1 program in 12 makes 13-40 of them), in 1 of 6 programs a non-operation group inserted at the front of the group list through groups_mut(), in 1 of 8 a second operation group pushed at the end through groups_mut(), and in 1 of 6 a to_bytes() call between the adds and that surgery — four times (four fresh map key sets), serialises each with to_bytes() and reads the attribute names of every group with the reference tokenizer (a target attribute that ended up in a later operation group still counts as present). Oracle = the statement: first delimiter 0x01; attributes-charset first; attributes-natural-language second; printer-uri third if present, else job-uri third if present; job-id fourth when printer-uri and job-id are both present. distinct_nontrivial = distinct (program, observed order per instance) hashes among runs whose operation group has >= 4 attributes."
             .into()
     }
     fn assumptions(&self) -> Vec<String> {
